@@ -130,7 +130,7 @@ def case_params(con, case):
     over = getattr(case, "params_override", {}) or {}
     types = getattr(case, "types", {}) or {}
     out = []
-    for name, t in con.params:
+    for name, t in list(con.params) + list(getattr(con, "closure", None) or []):
         nm = name.lstrip("*")
         if nm in over:
             t = over[nm]
@@ -164,7 +164,14 @@ def verify_case(reg, con, case, hooks=None):
     fid = new_fid()
     Engine._top_fid = fid
     eng._top_fid = fid
-    st = st.with_frame(fid, None, a)
+    clos = [n for n, _ in (getattr(con, "closure", None) or [])]
+    if clos:
+        # nested function: its free variables live in an enclosing frame, its parameters in its own
+        outer = new_fid()
+        st = st.with_frame(outer, None, {n: a[n] for n in clos})
+        st = st.with_frame(fid, outer, {n: v for n, v in a.items() if n not in clos})
+    else:
+        st = st.with_frame(fid, None, a)
     E0 = Env(a, st, eng=eng)
     st = st.assume(*eng.kind_axioms(st))
     st = st.assume(*con.axioms(E0))
